@@ -266,6 +266,14 @@ func c10Parser(r *core.Run, p *core.Prog) {
 						}
 					}
 				}
+				// (a') right operand of || whose left side contains p.eof(): evaluated only when eof is false
+				if b, ok := par.(*ast.BinaryExpr); ok && b.Op == token.LOR && b.Y == cur {
+					for _, c := range core.Conjuncts(b.X, true) {
+						if neg, ok := isEOF(f, c); ok && !neg {
+							guarded = true
+						}
+					}
+				}
 				if _, ok := par.(ast.Stmt); ok {
 					break
 				}
